@@ -67,6 +67,9 @@ func Snapshot(dir string) Snap {
 		rel = filepath.ToSlash(rel)
 		if d.IsDir() {
 			s[rel] = "d"
+		} else if d.Type()&fs.ModeSymlink != 0 {
+			to, _ := os.Readlink(p)
+			s[rel] = "l:" + to
 		} else {
 			info, e := d.Info()
 			if e != nil {
@@ -156,6 +159,14 @@ func Populate(dir string, entries map[string]byte) {
 		p := filepath.Join(dir, filepath.FromSlash(k))
 		if entries[k] == 'd' {
 			must(os.MkdirAll(p, 0o755))
+		} else if entries[k] == 'l' || entries[k] == 'L' {
+			// 'l': a symbolic link to an existing directory next to the target; 'L': a dangling one
+			must(os.MkdirAll(filepath.Dir(p), 0o755))
+			to := filepath.Join(filepath.Dir(filepath.Clean(dir)), "sibling")
+			if entries[k] == 'L' {
+				to = filepath.Join(dir, "no-such-entry")
+			}
+			must(os.Symlink(to, p))
 		} else {
 			must(os.MkdirAll(filepath.Dir(p), 0o755))
 			must(os.WriteFile(p, nil, 0o644))
